@@ -18,7 +18,7 @@ MANIFEST = {
             'exactly in the Malformed arm, and decode()/decode_with_bom_removal() strip exactly the recognised BOM before delegating (shared '
             'with C10); (D4) the unreachable!() on OutputFull is justified: the String capacity is valid_up_to + the same decoder\'s '
             'max_utf8_buffer_length_without_replacement(bytes.len() - valid_up_to). Equality of results with the streaming API follows from '
-            'C01/C02/C19 semantics and is not decided here.',
+            'C01/C02/C19 semantics and is not decided here. (D3.encode-flag) Encoding::encode ORs the unmappable flag of every encode_from_utf8_to_vec call, starting from false, on the growing path as well, and returns it.',
     'note': 'Trusted: rustc MIR, mirx, rule library, String/Vec semantics.',
     'technique': 'bounded path enumeration with symbolic summaries over MIR + value provenance',
 }
